@@ -1,5 +1,4 @@
 //! C12: transport packet header fields and payload / adaptation-field split.
-use crate::obs;
 use crate::util::*;
 
 fn mk(rng: &mut Rng, b1: u8, b2: u8, b3: u8, b4: u8) -> Vec<u8> {
@@ -8,40 +7,28 @@ fn mk(rng: &mut Rng, b1: u8, b2: u8, b3: u8, b4: u8) -> Vec<u8> {
     p
 }
 
-pub fn run(tier: &str, seed: u64, dir: &str) {
-    let mut out = Out::new(dir, "C12");
+pub fn gen(tier: &str, seed: u64, emit: &mut dyn FnMut(String)) {
     let mut rng = Rng::new(seed ^ 0xC12);
-    let emit = |out: &mut Out, p: &[u8]| {
-        let pc = p.to_vec();
-        out.case(&format!("PKT {}", hex(p)), guarded(move || obs::run_packet(&pc)));
-    };
     // exhaustive over header bytes 1,2 (tei, pusi, priority, pid) — other bytes random
     for b1 in 0..=255u8 { for b2 in 0..=255u8 {
         let (b3, b4) = (rng.byte(), rng.byte());
-        let p = mk(&mut rng, b1, b2, b3, b4);
-        emit(&mut out, &p);
+        emit(format!("P12 {}", hex(&mk(&mut rng, b1, b2, b3, b4))));
     } }
     // exhaustive over header byte 3 (scrambling, adaptation control, counter) x adaptation_field_length
     for b3 in 0..=255u8 { for b4 in 0..=255u8 {
         let (b1, b2) = (rng.byte(), rng.byte());
-        let mut p = mk(&mut rng, b1, b2, b3, b4);
-        // make the adaptation field's own fields run up to its end half of the time
-        if rng.chance(1, 2) { p[5] = *rng.pick(&[0x02u8, 0x03, 0x12, 0x1f, 0x01, 0xff, 0x10, 0x08]); }
-        if rng.chance(1, 2) { let l = b4 as i64; let pos = rng.range(6, 14) as usize; p[pos] = (l - (pos as i64 - 4) - rng.range(0, 2) as i64).clamp(0, 255) as u8; }
-        emit(&mut out, &p);
+        emit(format!("P12 {}", hex(&mk(&mut rng, b1, b2, b3, b4))));
     } }
     // bad sync bytes
     for s in 0..=255u8 {
         let mut p = rng.bytes(188); p[0] = s;
-        emit(&mut out, &p);
+        emit(format!("P12 {}", hex(&p)));
     }
     if tier == "thorough" {
-        // all 2^16 (b1,b2) x all 256 b3, boundary b4
-        for b3 in 0..=255u8 { for b1 in 0..=255u8 { for b2 in (0..=255u8).step_by(3) {
-            let b4 = *rng.pick(&[0u8, 1, 181, 182, 183, 184, 255]);
-            let p = mk(&mut rng, b1, b2, b3, b4);
-            emit(&mut out, &p);
+        // every (b1,b2,b3) triple with a boundary adaptation_field_length
+        for b3 in 0..=255u8 { for b1 in 0..=255u8 { for b2 in 0..=255u8 {
+            let b4 = *rng.pick(&[0u8, 1, 2, 181, 182, 183, 184, 255]);
+            emit(format!("P12 {}", hex(&mk(&mut rng, b1, b2, b3, b4))));
         } } }
     }
-    out.finish();
 }
